@@ -206,6 +206,13 @@ pub struct Run {
     replay_hit: AtomicBool,
 }
 
+/// Wall-clock limit for a single case (VERIF_WATCHDOG_SECS, default 600): far above the cost of
+/// any case (the slowest ones take a few seconds), so that it only fires on non-termination.
+pub fn watchdog_secs() -> u64 {
+    static V: std::sync::OnceLock<u64> = std::sync::OnceLock::new();
+    *V.get_or_init(|| std::env::var("VERIF_WATCHDOG_SECS").ok().and_then(|v| v.parse().ok()).filter(|v| *v >= 5).unwrap_or(600))
+}
+
 /// Per-thread accumulation, merged into the run at the end of a shard.
 pub struct Ctx<'r> {
     pub run: &'r Run,
@@ -443,10 +450,23 @@ impl Run {
             ctx.sample_budget = 1;
             ctx.index = r.index;
             let mut rng = Rng::for_case(self.cli.seed, gen, r.index);
-            match mon::guard(|| f(&mut ctx, r.index, &mut rng)) {
-                Ok(()) => {}
-                Err(pi) => ctx.panic(&pi, || format!("gen={} index={}", gen, r.index)),
-            }
+            let finished = AtomicBool::new(false);
+            std::thread::scope(|s| {
+                s.spawn(|| {
+                    let t = Instant::now();
+                    while !finished.load(Ordering::Relaxed) {
+                        std::thread::sleep(std::time::Duration::from_millis(100));
+                        if t.elapsed().as_secs() > watchdog_secs() {
+                            self.watchdog_fired(gen, r.index, watchdog_secs());
+                        }
+                    }
+                });
+                match mon::guard(|| f(&mut ctx, r.index, &mut rng)) {
+                    Ok(()) => {}
+                    Err(pi) => ctx.panic(&pi, || format!("gen={} index={}", gen, r.index)),
+                }
+                finished.store(true, Ordering::Relaxed);
+            });
             ctx.merge();
             return;
         }
@@ -457,9 +477,28 @@ impl Run {
         let evals_before = self.state.lock().unwrap().evaluations;
         let jobs = self.cli.jobs.min(n.max(1) as usize).max(1);
         let chunk = (n / (jobs as u64 * 16)).clamp(1, 4096);
+        // wall-clock watchdog: (index of the case a worker is in, tick at which it entered it)
+        let slots: Vec<(AtomicU64, AtomicU64)> = (0..jobs).map(|_| (AtomicU64::new(u64::MAX), AtomicU64::new(0))).collect();
+        let active = AtomicU64::new(jobs as u64);
+        let tick = AtomicU64::new(0);
+        let slowest = AtomicU64::new(0);
         std::thread::scope(|s| {
-            for _ in 0..jobs {
-                s.spawn(|| {
+            s.spawn(|| {
+                let limit = watchdog_secs() * 10;
+                while active.load(Ordering::Relaxed) > 0 {
+                    std::thread::sleep(std::time::Duration::from_millis(100));
+                    let now = tick.fetch_add(1, Ordering::Relaxed) + 1;
+                    for slot in &slots {
+                        let idx = slot.0.load(Ordering::Relaxed);
+                        if idx != u64::MAX && now.saturating_sub(slot.1.load(Ordering::Relaxed)) > limit && slot.0.load(Ordering::Relaxed) == idx {
+                            self.watchdog_fired(gen, idx, limit / 10);
+                        }
+                    }
+                }
+            });
+            for w in 0..jobs {
+                let (slots, active, tick, slowest, next, done, capped, f) = (&slots, &active, &tick, &slowest, &next, &done, &capped, &f);
+                s.spawn(move || {
                     let mut ctx = Ctx::new(self, gen);
                     loop {
                         if self.stop.load(Ordering::Relaxed) {
@@ -479,17 +518,31 @@ impl Run {
                             // keep the first cases of the run and a few later ones as samples
                             ctx.sample_budget = if idx < 2 || (idx == n / 2) || idx + 1 == n { 1 } else { 0 };
                             let mut rng = Rng::for_case(self.cli.seed, gen, idx);
+                            let entered = tick.load(Ordering::Relaxed);
+                            slots[w].1.store(entered, Ordering::Relaxed);
+                            slots[w].0.store(idx, Ordering::Relaxed);
                             match mon::guard(|| f(&mut ctx, idx, &mut rng)) {
                                 Ok(()) => {}
                                 Err(pi) => ctx.panic(&pi, || format!("gen={} index={} (panic escaped the case closure)", gen, idx)),
+                            }
+                            slots[w].0.store(u64::MAX, Ordering::Relaxed);
+                            let took = tick.load(Ordering::Relaxed) - entered;
+                            if took > 0 {
+                                slowest.fetch_max(took, Ordering::Relaxed);
                             }
                         }
                         done.fetch_add(hi - lo, Ordering::Relaxed);
                     }
                     ctx.merge();
+                    active.fetch_sub(1, Ordering::Relaxed);
                 });
             }
         });
+        {
+            let mut st = self.state.lock().unwrap();
+            let e = st.maxima.entry("slowest_case_tenths_of_a_second".to_string()).or_insert(0);
+            *e = (*e).max(slowest.load(Ordering::Relaxed));
+        }
         let mut st = self.state.lock().unwrap();
         let evals = st.evaluations - evals_before;
         let d = done.load(Ordering::Relaxed);
@@ -502,6 +555,24 @@ impl Run {
             exhaustive: exhaustive && d == n,
             wall_s: t0.elapsed().as_secs_f64(),
         });
+    }
+
+    /// A case did not return within the watchdog limit. For C08 (whose statement includes
+    /// termination) that is a violation; for every other property the run is inconclusive.
+    /// The hung worker cannot be stopped, so the process reports what it has and exits.
+    fn watchdog_fired(&self, gen: &str, idx: u64, secs: u64) -> ! {
+        let msg = format!("case gen={} index={} seed={} did not return within {} s of wall-clock time (cases of this generator normally take milliseconds); the code under test probably does not terminate on it", gen, idx, self.cli.seed, secs);
+        {
+            let mut st = self.state.lock().unwrap();
+            if self.id == "c08" {
+                let sig = format!("non-termination|{}", gen);
+                st.viol.insert(sig.clone(), Viol { sig, gen: gen.to_string(), index: idx, case: format!("gen={} index={} (the case never returned, so its description is not available; replaying it re-creates the input)", gen, idx), detail: msg, count: 1 });
+            } else {
+                st.harness_errors.push(format!("watchdog: {}", msg));
+            }
+        }
+        let code = self.finish();
+        std::process::exit(code);
     }
 
     /// Single-threaded section with a context (for sweeps that parallelise themselves).
